@@ -99,6 +99,9 @@ impl<T: Comp> AMon<T> {
         let readings = readings(pre.pos);
         let (p_min, p_max) = (readings[0] as f64, *readings.last().unwrap() as f64);
         let p = pre.pos.as_secs_f32() as f64;
+        // off-grid timelines: within two ulp of the total nothing is demanded of the end clauses (DESIGN §9.8)
+        let band = d.end_band();
+        let in_band = band > 0.0 && (p_min - d.total()).abs().min((p_max - d.total()).abs()) <= band;
         // After a hot set_timeline (documented as intentional) the state is carried over. Everything that
         // *happens after the swap* is still judged against the new timeline; only an `Ended` status that
         // was reached under the replaced timeline is stale and not judged (`run_valid == false`).
@@ -109,17 +112,17 @@ impl<T: Comp> AMon<T> {
             }
             // 5. Ended exactly when the position has reached the total
             let total = d.total();
-            if post.state == AnimationState::Ended && pre.state != AnimationState::Ended && p_max < total {
+            if post.state == AnimationState::Ended && pre.state != AnimationState::Ended && p_max < total - band {
                 return err("ended-early", format!("became Ended at position {p}, total duration {total}"));
             }
-            if p_min >= total && post.state != AnimationState::Ended {
+            if p_min >= total + band && post.state != AnimationState::Ended {
                 return err("ended-late", format!("position {p} reached the total {total} but the state is {:?} at the end of the frame", post.state));
             }
             if total.is_infinite() && post.state == AnimationState::Ended {
                 return err("ended-infinite", "Ended for an infinitely repeating timeline".to_string());
             }
             // 6. Ended => terminal values
-            if post.state == AnimationState::Ended && (self.run_valid || pre.state != AnimationState::Ended) && !self.terminal_ok(&post.comp) {
+            if post.state == AnimationState::Ended && (self.run_valid || pre.state != AnimationState::Ended) && !in_band && !self.terminal_ok(&post.comp) {
                 let mut t = post.comp.clone();
                 twin.update(&mut t, (total + 1000.0) as f32);
                 return err("ended-not-terminal", format!("state is Ended but the component is {:?}; the timeline's terminal values are {:?} (entered from {:?})", post.comp, t, pre.state));
@@ -141,7 +144,7 @@ impl<T: Comp> AMon<T> {
         } else if !same(&post.comp, &pre.comp) {
             // not Playing at the start of the frame: the component may only be written to land on the
             // terminal values when the frame ends in Ended
-            let landed = post.state == AnimationState::Ended && pre.state != AnimationState::Ended && self.terminal_ok(&post.comp);
+            let landed = post.state == AnimationState::Ended && pre.state != AnimationState::Ended && (in_band || self.terminal_ok(&post.comp));
             if !landed {
                 return err("written-while-not-playing", format!("component changed {:?} -> {:?} in a frame that started in state {:?}", pre.comp, post.comp, pre.state));
             }
